@@ -44,6 +44,8 @@ FeatureChecker::FeatureChecker(Document& document)
 bool FeatureChecker::visitTemplateBefore(template_t& templ)
 {
     // Only check features if template is actually used in the system
+    if (templ.is_instantiated)
+        visitFrame(templ.frame);  // channels declared locally are declared channels too
     return templ.is_instantiated;
 }
 
@@ -158,6 +160,10 @@ void FeatureChecker::visitFrame(const frame_t& frame)
 {
     for (size_t i = 0; i < frame.get_size(); ++i) {
         type_t t = frame.get_symbol(i).get_type();
+        if (t.get_kind() == Constants::TYPEDEF || t.is(Constants::REF))
+            continue;  // neither a type name nor a reference parameter declares a channel
+        while (t.is_array())
+            t = t.get_sub();  // an array of channels declares channels (get_sub keeps the broadcast prefix)
         if (t.is_channel() && !t.is(Constants::BROADCAST))
             supported_methods.stochastic = false;
     }
